@@ -49,3 +49,22 @@ def whole_column(ctx, repo):
     for rid, key, ln, msg in fs:
         ctx.violation(rid, key, f"src/_gettsim/interface.py:{ln}", msg)
     ctx.floor("W2", 15)
+    group_id_arithmetic(ctx, repo, "W5")
+
+
+def group_id_arithmetic(ctx, repo, rid):
+    from ._wholecol import grouping_id_arithmetic
+
+    ctx.rule(rid, "a group id derived from another id by arithmetic (fg_id * 100 + k) takes k from per-group state looked up by the row's own id (or a constant) - never from a scalar updated across all rows or a cumulative / positional whole-column operation: ids stay independent of row order and of other households, and distinct groups keep distinct ids")
+    g = repo.module("groupings.py")
+    n = 0
+    for name, (fname, fd) in sorted(repo.grouping_funcs.items()):
+        fs = list(grouping_id_arithmetic(g, fd))
+        n += 1
+        ctx.ob(rid, ok=not fs, distinct=fname)
+        for key, ln, msg in fs:
+            ctx.violation(rid, key, f"src/_gettsim/groupings.py:{ln} {fname}", msg)
+    if n < 5:
+        from staticlib.common import AnalysisError
+
+        raise AnalysisError(f"only {n} grouping functions found")
